@@ -2001,7 +2001,7 @@ hwloc_linux_set_thisthread_membind(hwloc_topology_t topology, hwloc_const_nodese
     fullmask = malloc(max_os_index/HWLOC_BITS_PER_LONG * sizeof(*fullmask));
     if (!fullmask)
       goto out_with_mask;
-    memset(fullmask, 0xf, max_os_index/HWLOC_BITS_PER_LONG * sizeof(unsigned long));
+    memset(fullmask, 0xff, max_os_index/HWLOC_BITS_PER_LONG * sizeof(unsigned long));
     err = hwloc_migrate_pages(0, max_os_index+1, fullmask, linuxmask); /* returns the (positive) number of non-migrated pages on success */
     free(fullmask);
     if (err < 0 && (flags & HWLOC_MEMBIND_STRICT))
